@@ -9,7 +9,7 @@ use crate::{
     crypto::{ecc_curve::ECCCurve, hash::HashAlgorithm, Signer},
     errors::{bail, ensure, ensure_eq, unsupported_err, Error, Result},
     ser::Serialize,
-    types::{EcdsaPublicParams, Mpi, SignatureBytes},
+    types::{pad_key, EcdsaPublicParams, Mpi, SignatureBytes},
 };
 
 #[derive(Clone, PartialEq, Eq, ZeroizeOnDrop, derive_more::Debug)]
@@ -97,22 +97,26 @@ impl SecretKey {
     pub(crate) fn try_from_mpi(pub_params: &EcdsaPublicParams, d: Mpi) -> Result<Self> {
         match pub_params {
             EcdsaPublicParams::P256 { .. } => {
-                let secret = p256::SecretKey::from_slice(d.as_ref())?;
+                // the MPI has lost leading zeros, the scalar has a fixed size
+                let secret = p256::SecretKey::from_slice(&pad_key::<32>(d.as_ref())?)?;
 
                 Ok(SecretKey::P256(secret))
             }
             EcdsaPublicParams::P384 { .. } => {
-                let secret = p384::SecretKey::from_slice(d.as_ref())?;
+                // the MPI has lost leading zeros, the scalar has a fixed size
+                let secret = p384::SecretKey::from_slice(&pad_key::<48>(d.as_ref())?)?;
 
                 Ok(SecretKey::P384(secret))
             }
             EcdsaPublicParams::P521 { .. } => {
-                let secret = p521::SecretKey::from_slice(d.as_ref())?;
+                // the MPI has lost leading zeros, the scalar has a fixed size
+                let secret = p521::SecretKey::from_slice(&pad_key::<66>(d.as_ref())?)?;
 
                 Ok(SecretKey::P521(secret))
             }
             EcdsaPublicParams::Secp256k1 { .. } => {
-                let secret = k256::SecretKey::from_slice(d.as_ref())?;
+                // the MPI has lost leading zeros, the scalar has a fixed size
+                let secret = k256::SecretKey::from_slice(&pad_key::<32>(d.as_ref())?)?;
 
                 Ok(SecretKey::Secp256k1(secret))
             }
